@@ -686,8 +686,15 @@ func (w *World) inlinableShape(f *ssa.Function) bool {
 		}
 		for _, b := range f.Blocks {
 			for _, in := range b.Instrs {
-				switch in.(type) {
-				case *ssa.Defer, *ssa.RunDefers, *ssa.Select:
+				switch x := in.(type) {
+				case *ssa.Defer:
+					// a deferred Close of a file is harmless for the rules (it is recorded where it is
+					// registered); any other deferred call keeps the function opaque
+					if name := calleeName(&x.Call); !(strings.HasSuffix(name, ".Close") || name == "invoke:Close") {
+						return false
+					}
+				case *ssa.RunDefers:
+				case *ssa.Select:
 					return false
 				}
 			}
